@@ -3,7 +3,7 @@
    util.dtype_kind_to_na as REGENERATED from /repo on every run (Gen/Gen_util.v). *)
 Require Import SF.Prelude SF.Dtype SF.Value SF.Blocks SF.PyDyn SF.Concat SF.ConcatVal Gen.Gen_util.
 Require Import Proofs.ConcatVstack Proofs.ConcatKernel Proofs.ConcatAlign Proofs.ConcatReindex
-  Proofs.ConcatFrame Proofs.ConcatCells Proofs.ConcatOverlay Proofs.ConcatExamples.
+  Proofs.ConcatFrame Proofs.ConcatCells Proofs.ConcatSegments Proofs.ConcatOverlay Proofs.ConcatExamples.
 
 (* 1. Vertical stacking through the blocks (TypeBlocks.vstack_blocks_to_blocks with the flags
    Frame.from_concat computes) yields, for EVERY block layout of every input and whichever of the
@@ -86,6 +86,25 @@ Theorem C11_concat_cells_by_label : forall filldt fill (fs : list vframe) (cols 
                  (match t_cell val_eqb (f_table f) r c with Some v => v | None => fill end)).
 Proof. exact (concat0_cell val_eqb cast_val resolve_val c11_val_eqb_spec). Qed.
 Print Assumptions C11_concat_cells_by_label.
+
+(* 8b. No cell lost, duplicated or moved, about the WHOLE column: column c of the specified result is the
+   inputs' aligned columns c laid end to end -- the segment of input k (rows off k .. off k + rows k) is input
+   k's column c (its fill column when it lacks c), stored in the result dtype ... *)
+Theorem C11_cells_segments : forall filldt fill (fs : list vframe) c k f,
+  Forall (@wf_cells val val) fs -> nth_error fs k = Some f ->
+  let col := result_column val_eqb cast_val resolve_val filldt fill fs c in
+  firstn (f_rows f) (skipn (off (map (@f_index val val) fs) k) (snd col)) =
+  map (cast_val (fst col)) (snd (S_aligned_col val_eqb filldt fill f c)).
+Proof. exact (concat0_segments val_eqb cast_val resolve_val). Qed.
+Print Assumptions C11_cells_segments.
+
+(* 8c. ... and the column has exactly one cell per input row: the segments partition it, so
+   (input k, row i) |-> result row off k + i is a bijection onto the result's rows. *)
+Theorem C11_cells_count : forall filldt fill (fs : list vframe) c,
+  Forall (@wf_cells val val) fs ->
+  length (snd (result_column val_eqb cast_val resolve_val filldt fill fs c)) = sum_rows fs.
+Proof. exact (concat0_column_length val_eqb cast_val resolve_val). Qed.
+Print Assumptions C11_cells_count.
 
 (* 9. The items forms: when IndexHierarchy.from_index_items accepts, the labels are exactly
    [(key, inner label)] in input order, and they are duplicate-free. *)
